@@ -1112,3 +1112,116 @@ def wrappers(prog, chk, rid, classes=tuple(NODE)):
                 else:
                     chk.bad(rid, f, "wrapper-delegates-wrongly:" + f.short, where,
                             "%s() is `%s`, its contract is %s: the operation acts on a different position / node than its name promises" % (f.short, got[:70], want))
+
+
+# ----------------------------------------------------------------------------- positional equality
+
+EQ_FIELDS = {"HashMap": ("key", "value"), "HashSet": ("key",), "List": ("value",)}
+EQ_FORMS = {"key": ("$->key", "$.key()"), "value": ("$->value", "*$")}
+
+
+def lockstep_equality(prog, chk, rid, classes):
+    """operator==(const Self&) of the insertion-ordered containers compares position by position: the reference model is a sequence"""
+    chk.rule(rid, "MPT/FIN: operator== answers true only under equal sizes and after a walk that advances one cursor over this and one over "
+                  "`other` in every iteration and leaves with false on the differing edge of a comparison of each element field "
+                  "(key / value) of the two cursors", floor=len(classes))
+    for cls in classes:
+        for tn, fs in sorted(class_insts(prog, cls).items()):
+            ops = [f for f in fs if f.short == "operator==" and f.cls == tn and len(f.params) == 1]
+            if not ops:
+                raise AnalysisBroken("%s::operator== has no body in the witness unit" % tn)
+            for f in ops:
+                where = "%s:%s" % (f.file, f.line)
+                other = f.params[0]["n"]
+                defs = q.local_defs(f)
+                rets = [i for i, n in enumerate(f.nodes) if n["k"] == "ReturnStmt" and n["c"]]
+                vals = {r: fin.eval_expr(f, f.nodes[r]["c"][0], {}) for r in rets}
+                if any(v is None for v in vals.values()):
+                    chk.ok(rid, f, "operator== returns a computed value (shape not decided)", where, "no constant returns", nontrivial=False)
+                    continue
+                trues = [r for r in rets if vals[r]]
+                falses = [r for r in rets if not vals[r]]
+                # cursors: locals advanced by `x = x->next` or `++x`
+                adv = {}
+                names = {}
+                for st in q.stores(f):
+                    l = f.nodes[st.lhs]
+                    if l["k"] != "DeclRefExpr" or l["ref"].get("dk") != "local":
+                        continue
+                    if (st.op == "=" and st.rhs is not None and q.no_casts(f.r(st.rhs)) == l["ref"]["n"] + "->next") or st.op == "++":
+                        adv.setdefault(l["ref"]["id"], []).append(st.node)
+                        names[l["ref"]["id"]] = l["ref"]["n"]
+                for i in q.calls(f):
+                    n = f.nodes[i]
+                    if n["k"] == "CXXOperatorCallExpr" and n.get("oop") == "++" and len(n["c"]) >= 2:
+                        o = f.nodes[f.strip(n["c"][1])]
+                        if o["k"] == "DeclRefExpr" and o["ref"].get("dk") == "local":
+                            adv.setdefault(o["ref"]["id"], []).append(i)
+                            names[o["ref"]["id"]] = o["ref"]["n"]
+                side = {}
+                for cid in adv:
+                    inits = [d_[2] for d_ in defs.get(cid, []) if d_[0] == "decl" and d_[2] is not None]
+                    t = q.no_casts(q.xr(f, inits[0], defs)) if inits else ""
+                    side[cid] = "other" if re.search(r"\b%s\b" % re.escape(other), t) else "self"
+                A = [c for c in adv if side[c] == "self" and loop_blocks(f, adv[c][0])]
+                B = [c for c in adv if side[c] == "other" and loop_blocks(f, adv[c][0])]
+                problems = []
+                if not A or not B:
+                    problems.append(("not-positional", "the walk does not advance a cursor over %s in step with the one over %s: elements are not "
+                                     "compared position by position, so two containers with the same elements in a different order compare equal "
+                                     "(or unequal ones equal)" % ("`%s`" % other if not B else "this", "this" if not B else "`%s`" % other)))
+                else:
+                    a, b = A[0], B[0]
+                    lb = loop_blocks(f, adv[a][0])
+                    heads = [x for x in lb if any(p_ not in lb for p_ in f.preds.get(x, []))]
+                    head = heads[0] if heads else None
+                    for nm, cur in (("this", a), ("other", b)):
+                        ap = q.pos_of(f, adv[cur])
+                        if head is None or f.find_path((head, 0), {(head, 0)}, avoid=ap) is not None:
+                            problems.append(("cursor-not-advanced:" + nm, "an iteration of the walk can return to the loop head without advancing the cursor over %s" % nm))
+                    na, nb = names[a], names[b]
+                    for fld in EQ_FIELDS[cls]:
+                        found = False
+                        for blk in f.blocks.values():
+                            c = blk.get("cond")
+                            if c is None or blk["id"] not in lb or len(blk["succ"]) != 2:
+                                continue
+                            for an, tr in q.cond_atoms(f, c, True):
+                                n = f.nodes[f.strip(an)]
+                                if n["k"] == "BinaryOperator" and n.get("op") in ("==", "!="):
+                                    l_, r_, op = n["c"][0], n["c"][1], n["op"]
+                                elif n["k"] == "CXXOperatorCallExpr" and n.get("oop") in ("==", "!=") and len(n["c"]) == 3:
+                                    l_, r_, op = n["c"][1], n["c"][2], n["oop"]
+                                else:
+                                    continue
+                                lt, rt = q.no_casts(f.r(l_)), q.no_casts(f.r(r_))
+                                ta = lambda t_, nm_: re.sub(r"\b%s\b" % re.escape(nm_), "$", t_)
+                                forms = {(ta(lt, na), ta(rt, nb)), (ta(rt, na), ta(lt, nb))}
+                                if not any(x == y and x in EQ_FORMS[fld] for x, y in forms):
+                                    continue
+                                # the edge on which the two differ must end in `return false` before anything else
+                                differs_true = (op == "!=") == bool(tr)
+                                tgt = blk["succ"][0] if differs_true else blk["succ"][1]
+                                if tgt is None:
+                                    continue
+                                esc = f.find_path((tgt, 0), q.pos_of(f, trues) | {(head, 0)}, avoid=q.pos_of(f, falses), after_src=False)
+                                if esc is None:
+                                    found = True
+                        if not found:
+                            problems.append(("field-not-compared:" + fld, "no comparison of the two cursors' `%s` whose differing edge leaves with false" % fld))
+                    # true only after the walk has run out and under equal sizes
+                    for r in trues:
+                        rel = fin.relations(f, f.node_pos(r), render=lambda i: q.no_casts(f.r(i)))
+                        sz = any(o == "==" and re.search(r"_size$|size\(\)$", x) and re.search(r"_size$|size\(\)$", y) and x != y for x, o, y in rel)
+                        if not sz:
+                            problems.append(("true-without-size-test", "`return true` is reachable without the sizes having compared equal: the walk "
+                                             "over the shorter list runs through the end sentinel of the other"))
+                        if f.find_path(f.entry_pos(), {f.node_pos(r)}, avoid={(x, 0) for x in lb}, after_src=False) is not None and f.blocks:
+                            # reachable without entering the walk at all is fine only for empty containers: the loop head decides that
+                            problems.append(("true-around-walk", "`return true` is reachable around the element walk"))
+                if problems:
+                    for tag, why in problems:
+                        chk.bad(rid, f, "equality-" + tag, where, why, evals=3)
+                else:
+                    chk.ok(rid, f, "operator==: equal sizes, lock-step walk, %s compared position by position" % "/".join(EQ_FIELDS[cls]), where,
+                           "cursor advance on every back edge + differing edges end in false", evals=3 + len(EQ_FIELDS[cls]))
